@@ -417,10 +417,14 @@ fn judge_script(lines: &[String], stats: &mut Stats) -> Verdict {
         p.send("isready");
         let cur = script::ref_current(&sent).map_err(|e| Failure::new("harness-bad-script", json!({"error": e})))?;
         stats.eval();
-        let out = match p.read_until("readyok", Duration::from_secs(25)) {
+        let out = match p.read_until_or_idle("readyok", Duration::from_secs(25), Duration::from_secs(4)) {
             Ok(l) => l,
             Err(Wait::Timeout) => {
                 return Err(Failure::new("harness-timeout-waiting-for-bestmove", json!({"script": sent, "stdout": p.transcript})));
+            }
+            Err(Wait::Idle) => {
+                // alive, idle, and the go (or the isready behind it) has not been answered
+                return Err(Failure::new("go-not-answered-engine-idle", json!({"script": sent, "stdout": p.transcript})));
             }
             Err(_) => {
                 let code = p.wait_exit(Duration::from_secs(2));
@@ -464,7 +468,7 @@ pub fn run(tier: Tier, seed: u64, known: &Known) -> PropRun {
     run.assumptions = vec![
         "Layer A sends 'go depth d' through the real command handler and observes the in-process image of the bestmove line it prints (hook beside the println); Layer B observes the printed line of the real process".into(),
         "a node-count budget (hook) is the deterministic image of a wall-clock budget; Nodes(0) = movetime 0".into(),
-        "Layer B: a go that does not answer within 25 s is inconclusive (exit 2), not a violation".into(),
+        "Layer B: a go that is still being worked on after 25 s is inconclusive (exit 2), not a violation; an engine that sits idle (no output, CPU time not increasing for 4 s) with a go unanswered has not answered it".into(),
     ];
     let part = Part { name: "A", cases: tier.pick(2_500, 80_000), min_len: 24, max_len: 900, max_shrink: 300, threads: threads() };
     let (st, fl) = run_part(&part, seed, known, part_a);
